@@ -79,6 +79,8 @@ def cached(name, seed, tier, fn):
 def backend_corpus(seed, tier):
     rnd = random.Random(seed * 7919 + 1)
     gs = [('c_' + k, g) for k, g in gram.curated().items()]
+    for i in range(8 if tier == 'quick' else 80):
+        gs.append(('tp%d' % i, gram.two_path_grammar(rnd)))
     n = 120 if tier == 'quick' else 1500
     for i in range(n):
         kind = i % 4
